@@ -10,9 +10,11 @@ import (
 	"fmt"
 	"go/ast"
 	"go/printer"
+	"go/token"
 	"hash/fnv"
 	"os"
 	"path/filepath"
+	"regexp"
 	"sort"
 	"strings"
 )
@@ -117,12 +119,61 @@ func with(guards []string, g string) []string {
 	return append(append([]string{}, guards...), g)
 }
 
+// assignedIn: the identifiers a statement assigns to (anywhere inside it, closures excluded)
+func assignedIn(s ast.Node) map[string]bool {
+	out := map[string]bool{}
+	if s == nil {
+		return out
+	}
+	ast.Inspect(s, func(n ast.Node) bool {
+		switch n := n.(type) {
+		case *ast.FuncLit:
+			return false
+		case *ast.AssignStmt:
+			if n.Tok != token.DEFINE {
+				for _, l := range n.Lhs {
+					if id, ok := l.(*ast.Ident); ok {
+						out[id.Name] = true
+					}
+				}
+			}
+		case *ast.IncDecStmt:
+			if id, ok := n.X.(*ast.Ident); ok {
+				out[id.Name] = true
+			}
+		}
+		return true
+	})
+	return out
+}
+
+// staleGuards: a test on a variable says nothing about the variable once it has been assigned again
+func staleGuards(guards []string, assigned map[string]bool) []string {
+	if len(assigned) == 0 {
+		return guards
+	}
+	out := make([]string, len(guards))
+	for i, g := range guards {
+		out[i] = g
+		for name := range assigned {
+			if strings.Contains(g, "[stale: "+name+" ") {
+				continue
+			}
+			if regexp.MustCompile(`(^|[^A-Za-z0-9_.])` + regexp.QuoteMeta(name) + `($|[^A-Za-z0-9_])`).MatchString(g) {
+				out[i] += " [stale: " + name + " assigned after the test]"
+			}
+		}
+	}
+	return out
+}
+
 func (w *siteWalker) stmts(list []ast.Stmt, guards []string, ranges []rangeInfo) {
 	for _, s := range list {
 		w.stmt(s, guards, ranges)
 		if ifs, ok := s.(*ast.IfStmt); ok && ifs.Else == nil && endsWithExit(ifs.Body) {
 			guards = with(guards, "!("+exprText(ifs.Cond)+")")
 		}
+		guards = staleGuards(guards, assignedIn(s))
 	}
 }
 
@@ -151,6 +202,12 @@ func (w *siteWalker) stmt(s ast.Stmt, guards []string, ranges []rangeInfo) {
 			w.exprs(s.Cond, guards, ranges)
 			g = with(guards, "for "+exprText(s.Cond))
 		}
+		inLoop := assignedIn(s.Body)
+		for k := range assignedIn(s.Post) {
+			inLoop[k] = true
+		}
+		// the loop's own condition is re-tested on every iteration; tests from outside are not
+		g = append(staleGuards(g[:len(guards)], inLoop), g[len(guards):]...)
 		w.stmt(s.Post, g, ranges)
 		w.stmts(s.Body.List, g, ranges)
 	case *ast.RangeStmt:
@@ -159,7 +216,7 @@ func (w *siteWalker) stmt(s ast.Stmt, guards []string, ranges []rangeInfo) {
 		if s.Key != nil {
 			r = append(append([]rangeInfo{}, ranges...), rangeInfo{exprText(s.Key), exprText(s.X)})
 		}
-		w.stmts(s.Body.List, guards, r)
+		w.stmts(s.Body.List, staleGuards(guards, assignedIn(s.Body)), r)
 	case *ast.SwitchStmt:
 		w.stmt(s.Init, guards, ranges)
 		tag := ""
